@@ -191,8 +191,11 @@ func roGenValue(t reflect.Type, r *Rng, depth int) (reflect.Value, bool) {
 		// SummaryWithVendor / Options.Summary take the caller's decoder for option 43: nil
 		// or a working one (seeded change C20-14: a decode memo keyed without the decoder,
 		// so that one call with a decoder changed what the niladic Summary printed later)
-		if r.Bool() {
+		switch r.Intn(3) {
+		case 0:
 			return reflect.Zero(t), true
+		case 1:
+			return reflect.ValueOf(&dhcpv4.Options{}).Convert(t), true
 		}
 		return reflect.ValueOf(&roVendorDecoder{}).Convert(t), true
 	case tV4Option:
